@@ -65,6 +65,8 @@ class AugmentedFlowProposal(FlowProposal):
         # set rescaling.
         self._base_rescale = self.rescale
         self.rescale = self._augmented_rescale
+        self._base_inverse_rescale = self.inverse_rescale
+        self.inverse_rescale = self._augmented_inverse_rescale
         self.augment_parameters = [f"e_{i}" for i in range(self.augment_dims)]
         self.parameters += self.augment_parameters
         self.prime_parameters += self.augment_parameters
@@ -119,6 +121,17 @@ class AugmentedFlowProposal(FlowProposal):
             raise RuntimeError("Unknown method for generating augment samples")
 
         return x_prime, log_J
+
+    def _augmented_inverse_rescale(self, x_prime, **kwargs):
+        """Inverse rescale that keeps the augment parameters.
+
+        The augment parameters are not part of any reparameterisation, so
+        they are copied from the prime space to the x space.
+        """
+        x, log_J = self._base_inverse_rescale(x_prime, **kwargs)
+        for an in self.augment_parameters:
+            x[an] = x_prime[an]
+        return x, log_J
 
     def augmented_prior(self, x):
         """
